@@ -191,9 +191,11 @@ Proof.
   unfold node_checked. apply keeps_bind; [apply keeps_lookup_node|]. intros _.
   apply keeps_bind; [apply keeps_get_node|]. intros n. apply keeps_if; [apply keeps_fail|apply keeps_ret].
 Qed.
-Lemma keeps_open_ro p : keeps (do_open p OF_R).
+Lemma ro_not_trunc fl : of_readonly fl = true -> of_trunc fl = false.
+Proof. intros H. destruct (of_trunc fl) eqn:E; [|reflexivity]. rewrite (of_trunc_not_readonly fl E) in H. discriminate. Qed.
+Lemma keeps_open_ro p fl : of_readonly fl = true -> keeps (do_open p fl).
 Proof.
-  unfold do_open. cbn [of_readonly of_trunc].
+  intros Hro. unfold do_open. rewrite Hro, (ro_not_trunc fl Hro).
   apply keeps_bind; [apply keeps_lookup_node|]. intros _.
   apply keeps_bind; [apply keeps_get_node|]. intros n. apply keeps_if; [apply keeps_fail|].
   apply keeps_bind; [apply keeps_ret|]. intros _.
@@ -217,12 +219,13 @@ Proof.
   - (* readdir *) apply keeps_bind; [apply keeps_walk|]; intros _. apply keeps_bind; [apply keeps_lookup_node|]; intros _.
     apply keeps_bind; [apply keeps_get_node|]. intros n. apply keeps_if; [apply keeps_fail|].
     apply keeps_bind; [apply keeps_stat_node|]. intros st. apply keeps_if; [apply keeps_fail|apply keeps_ret].
-  - (* read *) apply keeps_bind; [apply keeps_walk|]; intros _. apply keeps_bind; [apply keeps_open_ro|]. intros r.
+  - (* read *) apply keeps_bind; [apply keeps_walk|]; intros _. apply keeps_bind; [apply keeps_open_ro; reflexivity|]. intros r.
     apply keeps_same. intros s. destruct (real_tree s r) as [[]|]; reflexivity.
   - (* readlink *) apply keeps_bind; [apply keeps_walk|]; intros _. apply keeps_bind; [apply keeps_node_checked|]; intros _.
     apply keeps_bind; [apply keeps_first_tree|]. intros rt. destruct (snd rt); try apply keeps_fail. apply keeps_ret.
-  - (* open O_RDONLY *) destruct fl; cbn [of_readonly negb] in Hro; try discriminate.
-    apply keeps_bind; [apply keeps_walk|]; intros _. apply keeps_bind; [apply keeps_open_ro|]. intros r. apply keeps_ret.
+  - (* open, read-only by the code's own mask *)
+    assert (Hro' : of_readonly fl = true) by (destruct (of_readonly fl); [reflexivity|discriminate Hro]).
+    apply keeps_bind; [apply keeps_walk|]; intros _. apply keeps_bind; [apply keeps_open_ro; exact Hro'|]. intros r. apply keeps_ret.
   - (* getxattr *) apply keeps_bind; [apply keeps_walk|]; intros _. apply keeps_bind; [apply keeps_node_checked|]; intros _.
     apply keeps_bind; [apply keeps_first_tree|]. intros rt. destruct (afind k (xs_of (snd rt))); [apply keeps_ret|apply keeps_fail].
   - (* listxattr *) apply keeps_bind; [apply keeps_walk|]; intros _. apply keeps_bind; [apply keeps_node_checked|]; intros _.
@@ -302,8 +305,8 @@ Proof.
   - destruct (tget (f_tree f) p) as [[]|]; reflexivity.
   - destruct (tget (f_tree f) p) as [[]|]; reflexivity.
   - destruct (tget (f_tree f) p) as [[]|]; reflexivity.
-  - destruct fl; cbn [of_readonly negb] in Hro; try discriminate. cbn [of_trunc of_readonly].
-    destruct (tget (f_tree f) p) as [[]|]; reflexivity.
+  - assert (Hro' : of_readonly fl = true) by (destruct (of_readonly fl); [reflexivity|discriminate Hro]).
+    rewrite Hro', (ro_not_trunc fl Hro'). destruct (tget (f_tree f) p) as [[]|]; reflexivity.
   - destruct (tget (f_tree f) p) as [t|]; [destruct (afind k (xs_of t))|]; reflexivity.
   - destruct (tget (f_tree f) p); reflexivity.
 Qed.
